@@ -65,6 +65,21 @@ type Emb1 struct {
 	EmbN bool
 }
 
+// EmbT: an embeddable struct whose own fields carry omit tags (they must survive whatever the
+// configured default omit behaviour does to the untagged embedding field).
+type EmbT struct {
+	EmbKept  int    `ce:"omit_never"`
+	EmbNZ    int16  `ce:"omit_zero"`
+	EmbNE    []byte `ce:"omit_empty"`
+	EmbPlain string
+}
+
+var embTSpec = &TypeSpec{K: "struct", Named: "EmbT", Fields: []FieldSpec{
+	{Name: "EmbKept", Tag: `ce:"omit_never"`, Type: &TypeSpec{K: "int"}},
+	{Name: "EmbNZ", Tag: `ce:"omit_zero"`, Type: &TypeSpec{K: "int16"}},
+	{Name: "EmbNE", Tag: `ce:"omit_empty"`, Type: &TypeSpec{K: "slice", Elem: &TypeSpec{K: "uint8"}}},
+	{Name: "EmbPlain", Type: &TypeSpec{K: "string"}}}}
+
 var emb3Spec = &TypeSpec{K: "struct", Named: "Emb3", Fields: []FieldSpec{{Name: "EmbP", Type: &TypeSpec{K: "int"}}, {Name: "EmbQ", Type: &TypeSpec{K: "string"}}, {Name: "EmbR", Type: &TypeSpec{K: "int16"}}}}
 var emb2Spec = &TypeSpec{K: "struct", Named: "Emb2", Fields: []FieldSpec{{Name: "Emb3", Embedded: true, Type: emb3Spec}, {Name: "EmbM", Type: &TypeSpec{K: "uint8"}}}}
 var emb1Spec = &TypeSpec{K: "struct", Named: "Emb1", Fields: []FieldSpec{{Name: "Emb2", Embedded: true, Type: emb2Spec}, {Name: "EmbN", Type: &TypeSpec{K: "bool"}}}}
@@ -73,12 +88,12 @@ var emb1Spec = &TypeSpec{K: "struct", Named: "Emb1", Fields: []FieldSpec{{Name: 
 func NamedSpec(name string) *TypeSpec { return namedSpecs[name] }
 
 var namedSpecs = map[string]*TypeSpec{
-	"Emb1": emb1Spec, "Emb2": emb2Spec, "Emb3": emb3Spec,
+	"Emb1": emb1Spec, "Emb2": emb2Spec, "Emb3": emb3Spec, "EmbT": embTSpec,
 	"EmbA": {K: "struct", Named: "EmbA", Fields: []FieldSpec{{Name: "EmbInt", Type: &TypeSpec{K: "int"}}, {Name: "EmbName", Type: &TypeSpec{K: "string"}}}},
 	"EmbB": {K: "struct", Named: "EmbB", Fields: []FieldSpec{{Name: "EmbFlag", Type: &TypeSpec{K: "bool"}}, {Name: "EmbBytes", Type: &TypeSpec{K: "slice", Elem: &TypeSpec{K: "uint8"}}}}},
 }
 var namedTypes = map[string]reflect.Type{"EmbA": reflect.TypeOf(EmbA{}), "EmbB": reflect.TypeOf(EmbB{}),
-	"Emb1": reflect.TypeOf(Emb1{}), "Emb2": reflect.TypeOf(Emb2{}), "Emb3": reflect.TypeOf(Emb3{})}
+	"Emb1": reflect.TypeOf(Emb1{}), "Emb2": reflect.TypeOf(Emb2{}), "Emb3": reflect.TypeOf(Emb3{}), "EmbT": reflect.TypeOf(EmbT{})}
 
 var intKinds = []string{"int", "int8", "int16", "int32", "int64", "uint", "uint8", "uint16", "uint32", "uint64"}
 var scalarKinds = append([]string{"bool", "float32", "float64", "string", "string"}, intKinds...)
@@ -161,7 +176,7 @@ func genStruct(t *rapid.T, o *ValOpts, depth int) *TypeSpec {
 	used := map[string]bool{}
 	for i := 0; i < n; i++ {
 		if o.Embedded && rapid.IntRange(0, 5).Draw(t, "struct.emb") == 0 {
-			name := pick(t, "struct.embname", []string{"EmbA", "EmbB", "Emb1", "Emb2"})
+			name := pick(t, "struct.embname", []string{"EmbA", "EmbB", "Emb1", "Emb2", "EmbT"})
 			if (name == "Emb1" || name == "Emb2") && (used["Emb1"] || used["Emb2"]) {
 				name = "EmbA" // Emb1 and Emb2 promote the same field names
 			}
